@@ -163,7 +163,7 @@ def run_c12(tier):
     try:
         reqs, rows = [], []
         n = 0
-        for si in range(chk.scale(10, 80)):
+        for si in range(chk.scale(24, 120)):
             sc = S.Gen(chk.rng, n_decls=7, shared_sizers=False, small_discs=True).schema()
             text = S.to_prophy(sc)
             d = os.path.join(root, 'v%d' % si)
